@@ -19,6 +19,7 @@ package main
 //   active <n>                        wait (<= 5 s) until the manager reports n active transactions -> active <m>
 
 import (
+	"bytes"
 	"bufio"
 	"context"
 	"errors"
@@ -206,10 +207,16 @@ func genRegistry(g *gen, n int, tier string, w *bufio.Writer) {
 		x := &regGen{g: g, w: w}
 		tiny := g.chance(1, 2)
 		switch {
+		case !tiny && g.chance(1, 3):
+			// the REAL engine's BeginTransaction (whatever it returns must be rolled back by the registry's cleanup, ended by
+			// connection cleanup and shutdown, and refuse use after it finished); lifetime limits = the configured 180 s / 60 s
+			x.p("new ro=180000 rw=60000 idle=60000 real=1")
 		case !tiny:
 			x.p("new ro=60000 rw=60000 idle=60000")
 		case g.chance(1, 2):
 			x.p("new ro=25 rw=25 idle=60000") // lifetime limit
+		case g.chance(1, 2):
+			x.p("new ro=180000 rw=60000 idle=25 real=1") // idle limit on transactions begun through the real engine
 		default:
 			x.p("new ro=60000 rw=60000 idle=25") // idle limit
 		}
@@ -222,6 +229,12 @@ func genRegistry(g *gen, n int, tier string, w *bufio.Writer) {
 		} else {
 			for i := 0; i < nb; i++ {
 				x.block(false)
+				if g.chance(1, 3) {
+					// a batch the service refuses (an invalid operation among valid ones): the read-write transaction the handler
+					// opened for it must be ended - nothing registered it, nothing else could ever end it
+					x.p("batchbad %s %d", g.txcPick("emptykey", "bigkey", "bigvalue", "badop"), g.intn(3))
+					x.free()
+				}
 			}
 		}
 		if g.chance(1, 3) {
@@ -275,10 +288,22 @@ func (x *regGen) blockTiny() {
 // that has the injected TTLs (the facade's own manager has the 1 min / 3 min defaults hard-wired)
 type regTTLEngine struct {
 	*engine.EngineFacade
-	m *transaction.Manager
+	m    *transaction.Manager
+	real bool // `new … real=1`: transactions are begun through the REAL EngineFacade.BeginTransaction (configured limits, in seconds)
+}
+
+// txm: the manager transactions are begun on (probes, holders, statistics)
+func (e *regTTLEngine) txm() transaction.TransactionManager {
+	if e.real {
+		return e.EngineFacade.GetTransactionManager()
+	}
+	return e.m
 }
 
 func (e *regTTLEngine) BeginTransaction(readOnly bool) (interfaces.Transaction, error) {
+	if e.real {
+		return e.EngineFacade.BeginTransaction(readOnly)
+	}
 	tx, err := e.m.BeginTransaction(readOnly)
 	if err != nil {
 		return nil, err
@@ -349,7 +374,7 @@ func regErr(err error) string {
 }
 
 func (x *regRun) activeCount() int {
-	v := x.eng.m.GetTransactionStats()["tx_active"]
+	v := x.eng.txm().GetTransactionStats()["tx_active"]
 	if u, ok := v.(uint64); ok {
 		return int(int64(u))
 	}
@@ -359,7 +384,7 @@ func (x *regRun) activeCount() int {
 func (x *regRun) probe() string {
 	done := make(chan error, 1)
 	go func() {
-		tx, err := x.eng.m.BeginTransaction(false)
+		tx, err := x.eng.txm().BeginTransaction(false)
 		if err == nil {
 			err = tx.Rollback()
 		}
@@ -397,10 +422,13 @@ func (x *regRun) step(ws []string) (out string) {
 		x.r.dropTemp()
 		x.dir = x.r.tempDir()
 		var ro, rw, idle int
+		real := false
 		for _, w := range ws[1:] {
 			kv := strings.SplitN(w, "=", 2)
 			n, _ := strconv.Atoi(kv[1])
 			switch kv[0] {
+			case "real":
+				real = n == 1
 			case "ro":
 				ro = n
 			case "rw":
@@ -422,7 +450,7 @@ func (x *regRun) step(ws []string) (out string) {
 		x.fac = fac
 		ms := time.Millisecond
 		m := transaction.NewManagerWithTTL(fac, nil, time.Duration(ro)*ms, time.Duration(rw)*ms, time.Duration(idle)*ms)
-		x.eng = &regTTLEngine{EngineFacade: fac, m: m}
+		x.eng = &regTTLEngine{EngineFacade: fac, m: m, real: real}
 		x.reg = transaction.NewRegistryWithTTL(time.Duration(rw)*ms, time.Duration(idle)*ms, 75, 90)
 		x.svc = service.NewKevoServiceServer(x.eng, x.reg, nil)
 		x.handles = map[string]string{}
@@ -457,7 +485,7 @@ func (x *regRun) step(ws []string) (out string) {
 		ch := make(chan res)
 		giveUp := make(chan struct{})
 		go func() {
-			tx, err := x.eng.m.BeginTransaction(ws[1] == "ro")
+			tx, err := x.eng.txm().BeginTransaction(ws[1] == "ro")
 			select {
 			case ch <- res{tx, err}:
 			case <-giveUp:
@@ -597,6 +625,34 @@ func (x *regRun) step(ws []string) (out string) {
 		ctx, cancel := context.WithTimeout(bg, 5*time.Second)
 		defer cancel()
 		return regErr(x.reg.GracefulShutdown(ctx))
+	case "batchbad": // batchbad <kind> <pos>: BatchWrite with one invalid operation at position pos among valid ones
+		ops := []*pb.Operation{{Type: pb.Operation_PUT, Key: []byte("bb1"), Value: []byte("1")}, {Type: pb.Operation_PUT, Key: []byte("bb2"), Value: []byte("2")},
+			{Type: pb.Operation_DELETE, Key: []byte("bb3")}}
+		pos, _ := strconv.Atoi(ws[2])
+		switch ws[1] {
+		case "emptykey":
+			ops[pos%3].Key = nil
+		case "bigkey":
+			ops[pos%3].Key = bytes.Repeat([]byte("k"), 4097)
+		case "bigvalue":
+			ops[pos%3] = &pb.Operation{Type: pb.Operation_PUT, Key: []byte("bbv"), Value: make([]byte, 10*1024*1024+1)}
+		default:
+			ops[pos%3].Type = pb.Operation_Type(77)
+		}
+		done := make(chan error, 1)
+		go func() {
+			_, err := x.svc.BatchWrite(context.WithValue(bg, "peer", "connB"), &pb.BatchWriteRequest{Operations: ops})
+			done <- err
+		}()
+		select {
+		case err := <-done:
+			if err == nil {
+				return "ok"
+			}
+			return "err invalid"
+		case <-time.After(5 * time.Second):
+			return "err blocked"
+		}
 	case "probe":
 		return x.probe()
 	case "active":
